@@ -9,6 +9,9 @@
 
 #include "clipper2/clipper.h"
 #include "clipper2/clipper.rectclip.h"
+#ifdef CLIPPER2_VERIF
+#include "clipper2/clipper.verif.h"
+#endif
 
 namespace Clipper2Lib {
 
@@ -877,6 +880,9 @@ namespace Clipper2Lib {
 
     for (const Path64& path : paths)
     {
+#ifdef CLIPPER2_VERIF
+      CLIPPER2_VERIF_YIELD(4);
+#endif
       if (path.size() < 3) continue;
       path_bounds_ = GetBounds(path);
       if (!rect_.Intersects(path_bounds_))
